@@ -6,7 +6,7 @@
    b : bundle (the user actions of one apply_user_actions call), [fired g t b] the rows for which the mechanism
    evaluates the trigger formula at the end of the bundle, [must]/[may] the two bounds the sentence gives,
    [spec] = must, [unconstrained] = may and not must (a dependency written with / recomputed to the value it
-   already has, a formula column written by a replayed doc action), [regular g t b] = none of the four
+   already has, a formula column written by a replayed doc action), [regular g t b] = none of the five
    transitions named in Model/Trigger.v section 4 occurs in the bundle. *)
 From Coq Require Import ZArith List Bool.
 Import ListNotations.
@@ -18,7 +18,8 @@ Open Scope Z_scope.
 Definition C15_trigger_fires_iff : Prop := forall g t b r,
   In r (rows (step g t b)) -> unconstrained g t b r = false -> memz r (fired g t b) = spec g t b r.
 
-(* What holds on the current source: the same, for every bundle in which none of the four transitions occurs. *)
+(* What holds on the current source: the same, for every bundle in which none of the five transitions occurs
+   (each of them is refuted separately below, with a witness that raises that flag only). *)
 Theorem C15_trigger_fires_iff_partial : forall g t b r,
   regular g t b = true ->
   In r (rows (step g t b)) -> unconstrained g t b r = false -> memz r (fired g t b) = spec g t b r.
@@ -46,13 +47,16 @@ Theorem C15_schema_changes_never_fire : forall g t b,
   forallb is_schema_action b = true -> fired g t b = [].
 Proof. exact schema_bundle_never_fires. Qed.
 
-(* ---------------------------------------------------------------- the four refutations (columns: 0 = trigger
+(* ---------------------------------------------------------------- the five refutations (columns: 0 = trigger
    column, 1..3 = data columns A B C, 4 = formula column F reading B, 5 = formula column G reading C) *)
 Definition fc := [(4, 2); (5, 3)].
-Definition only_add := {| fl_add := true; fl_lost := false; fl_stale := false; fl_trim := false |}.
-Definition only_lost := {| fl_add := false; fl_lost := true; fl_stale := false; fl_trim := false |}.
-Definition only_stale := {| fl_add := false; fl_lost := false; fl_stale := true; fl_trim := false |}.
-Definition only_trim := {| fl_add := false; fl_lost := false; fl_stale := false; fl_trim := true |}.
+Definition flags_of (a l s f tr : bool) :=
+  {| fl_add := a; fl_lost := l; fl_stale := s; fl_fstale := f; fl_trim := tr |}.
+Definition only_add := flags_of true false false false false.
+Definition only_lost := flags_of false true false false false.
+Definition only_stale := flags_of false false true false false.
+Definition only_fstale := flags_of false false false true false.
+Definition only_trim := flags_of false false false false true.
 Definition three_rows := [UAdd [1] [(1, [(1, 1)]); (2, [(1, 2)]); (3, [(1, 3)])]].
 
 (* DEFAULT, recalcDeps = {A}: AddRecord {A: 3, Tr: 50} - the supplied 50 is recalculated over. *)
@@ -85,6 +89,19 @@ Proof.
   exists {| when := DEFAULT; deps := [1]; fcols := fc |},
          (mechanism {| when := DEFAULT; deps := [1]; fcols := fc |} [three_rows]),
          [UDocs [DRename 1]; UUpd [1] [(1, [(1, 100)])]], 1.
+  repeat split; try (vm_compute; reflexivity). vm_compute. left. reflexivity.
+Qed.
+
+(* DEFAULT, {F}: [ModifyColumn B (type), UpdateRecord 1 {B: 9}] in one bundle - the type change invalidates F for
+   ALL_ROWS, which clears F's own dependency edges until F is recomputed at the end of the bundle; the change
+   of B (and so of F) in row 1 never reaches the trigger column. *)
+Theorem C15_refuted_formula_edges_cleared : exists g t b r,
+  In r (rows (step g t b)) /\ unconstrained g t b r = false /\ bundle_flags g t b = only_fstale /\
+  memz r (fired g t b) = false /\ spec g t b r = true.
+Proof.
+  exists {| when := DEFAULT; deps := [4]; fcols := fc |},
+         (mechanism {| when := DEFAULT; deps := [4]; fcols := fc |} [three_rows]),
+         [UDocs [DModify 2]; UUpd [2] [(1, [(2, 9)])]], 1.
   repeat split; try (vm_compute; reflexivity). vm_compute. left. reflexivity.
 Qed.
 
